@@ -318,16 +318,16 @@ def run(run):
     PROG = run.program(); XP.init_decls(PROG); SEED = run.seed
     run.native('dev')
     XP.run_translator_validation(run, PROG, every=8 if run.tier == 'quick' else 1)
-    A = 5 if run.tier == 'quick' else 8
+    A = 5 if run.tier == 'quick' else 12
     run.bounds = {'slice kernel': f'array length 0..{A}; start, stop in Option<i32> over the full i32 range (each present or omitted); step any i32 != 0',
-                  'interpret arms': f'document depth 1, arrays 0..{3 if run.tier == "quick" else 4} elements, every JSON type as subject; index / slice parts over the lexer range +-(2^31-1)',
+                  'interpret arms': f'document depth 1, arrays 0..{3 if run.tier == "quick" else 5} elements, every JSON type as subject; index / slice parts over the lexer range +-(2^31-1)',
                   'parse_index': f'"[" followed by up to {5 if run.tier == "quick" else 7} tokens from {{Number, Colon, Rbracket}} with symbolic numbers'}
     run.outside = [f'arrays longer than {A} at the slice kernel (the Kani kernel harness covers adjust_slice_endpoint for every len)', 'Ast values not produced by the parser (idx = i32::MIN)']
     run.assumes = ['index/slice numbers produced by the lexer lie in [-(2^31-1), 2^31-1] (interpret-level harness); Variable::slice is checked on the full i32 range',
                    'array elements are distinguishable by identity (Rc cells), so "which element" is decided exactly']
     dl = run.deadline
     jobs = [('slice', L, hs, ht, True, dl) for L in range(A + 1) for hs in (0, 1) for ht in (0, 1)]
-    AI = 3 if run.tier == 'quick' else 4
+    AI = 3 if run.tier == 'quick' else 5
     jobs += [('interp', 'index', AI, dl)] + [('interp', ('slice', hs, ht), AI, dl) for hs in (0, 1) for ht in (0, 1)]
     jobs += [('pidx', n, dl) for n in range(1, (5 if run.tier == 'quick' else 7) + 1)]
     run_jobs(run, jobs, task, 'mirsym: slice kernel + interpret Slice/Index arms + parse_index')
